@@ -231,6 +231,149 @@ theorem history_fires_only_current_actions (s : List Char) (fuel : Nat) (pre pos
     · cases h
   · exact Or.inr h
 
+/-! ## the debugging branch of `_parseNoCache` (set_debug / set_debug_actions / set_fail_action)
+
+`parseNoCache` (Model) transcribes both branches of core.py:820-912 with their own assignments of `tokens_start`.
+For every element (any `preParse`, any `parseImpl`, any actions), input length, location and flags: -/
+
+/-- `pre_loc`: the start of the match after skipping -/
+def preLocOf (x : DElem) (loc : Nat) (cp : Bool) : Nat := if cp && x.callPre then x.pre loc else loc
+
+theorem fireD_acts (start e t : Nat) (as : List Act) :
+    (fireD start e t as).2.filter DEv.isAct = (fireD start e t as).2 ∧
+    ∀ ev ∈ (fireD start e t as).2, ∃ i, ev = .act i start := by
+  induction as with
+  | nil => simp [fireD]
+  | cons a as ih =>
+    simp only [fireD]
+    cases a.kind with
+    | keep =>
+      refine ⟨?_, fun ev hev => ?_⟩
+      · show List.filter DEv.isAct (DEv.act a.id start :: (fireD start e t as).2) = _
+        rw [List.filter_cons_of_pos (by rfl), ih.1]
+      rcases List.mem_cons.mp hev with h | h
+      · exact ⟨a.id, h⟩
+      · exact ih.2 ev h
+    | fail => simp [DEv.isAct]
+    | fatal => simp [DEv.isAct]
+    | err => simp [DEv.isAct]
+
+theorem fireD_ok_endLoc (start e t : Nat) (as : List Act) (e' t' : Nat)
+    (h : (fireD start e t as).1 = .ok e' t') : e' = e ∧ t' = t := by
+  induction as with
+  | nil => simp [fireD] at h; exact ⟨h.1.symm, h.2.symm⟩
+  | cons a as ih =>
+    simp only [fireD] at h
+    cases hk : a.kind <;> simp [hk] at h
+    exact ih h
+
+theorem head_debug_spec (len : Nat) (x : DElem) (loc : Nat) (da cp : Bool) :
+    (headDebug len x loc da cp).tokensStart = preLocOf x loc cp ∧
+    (headDebug len x loc da cp).res = implGuard len x (preLocOf x loc cp) da ∧
+    (headDebug len x loc da cp).evs.filter DEv.isAct = [] := by
+  simp only [headDebug, preLocOf]
+  rcases implGuard len x (if (cp && x.callPre) = true then x.pre loc else loc) da with ⟨e, t⟩ | _ | _ | _ <;>
+    cases x.dTry <;> cases x.dFail <;> cases x.failAction <;> simp [DEv.isAct]
+
+theorem head_plain_spec (len : Nat) (x : DElem) (loc : Nat) (da cp : Bool) :
+    (headPlain len x loc da cp).tokensStart = preLocOf x loc cp ∧
+    (headPlain len x loc da cp).res = implGuard len x (preLocOf x loc cp) da ∧
+    (headPlain len x loc da cp).evs = [] := by
+  simp [headPlain, preLocOf]
+
+/-- the tail does the same with the debug settings as without, up to the callbacks -/
+theorem actionTail_agrees (x : DElem) (h1 h2 : Head) (da : Bool)
+    (hs : h1.tokensStart = h2.tokensStart) (hr : h1.res = h2.res)
+    (h1e : h1.evs.filter DEv.isAct = []) (h2e : h2.evs = []) :
+    (actionTail x h1 da).1 = (actionTail x.plain h2 da).1 ∧
+    (actionTail x h1 da).2.filter DEv.isAct = (actionTail x.plain h2 da).2 := by
+  rcases h1 with ⟨ts, res, ev1⟩
+  rcases h2 with ⟨ts2, res2, ev2⟩
+  simp only at hs hr h1e h2e
+  subst hs hr h2e
+  cases res with
+  | ok e t =>
+    simp only [actionTail, DElem.plain]
+    by_cases hfire : (!x.acts.isEmpty && (da || x.cdt)) = true
+    · simp only [hfire, if_true]
+      have hf := (fireD_acts ts e t x.acts).1
+      rcases hq : (fireD ts e t x.acts).1 with ⟨e', t'⟩ | _ | _ | _ <;>
+        cases x.debug <;> cases x.dFail <;> cases x.dMatch <;>
+        simp [hq, List.filter_append, hf, h1e, DEv.isAct]
+    · simp only [hfire]
+      cases x.debug <;> cases x.dMatch <;> simp [h1e, DEv.isAct]
+  | fail => simp [actionTail, h1e]
+  | fatal => simp [actionTail, h1e]
+  | err => simp [actionTail, h1e]
+
+/-- **debug_branch_agrees**: the element with `set_debug` / `set_debug_actions` / `set_fail_action` and the same
+    element without them are the same function of (string, loc, do_actions, callPreParse) up to the debug callbacks:
+    same result (end location, tokens, or the same exception class) and the same parse-action calls — same actions,
+    same order, same `loc` arguments. -/
+theorem debug_branch_agrees (len : Nat) (x : DElem) (loc : Nat) (da cp : Bool) :
+    (parseNoCache len x loc da cp).1 = (parseNoCache len x.plain loc da cp).1 ∧
+    (parseNoCache len x loc da cp).2.filter DEv.isAct = (parseNoCache len x.plain loc da cp).2 := by
+  have hp : parseNoCache len x.plain loc da cp = actionTail x.plain (headPlain len x loc da cp) da := by
+    simp [parseNoCache, DElem.plain, headPlain, implGuard]
+  rw [hp]
+  have hP := head_plain_spec len x loc da cp
+  simp only [parseNoCache]
+  split
+  · have hD := head_debug_spec len x loc da cp
+    exact actionTail_agrees x _ _ da (hD.1.trans hP.1.symm) (hD.2.1.trans hP.2.1.symm) hD.2.2 hP.2.2
+  · exact actionTail_agrees x _ _ da rfl rfl (by simp [hP.2.2]) hP.2.2
+
+/-- the plain element's trace consists of the action calls alone, all with `loc = pre_loc` -/
+theorem plain_trace (len : Nat) (x : DElem) (loc : Nat) (da cp : Bool) :
+    ∀ ev ∈ (parseNoCache len x.plain loc da cp).2, ∃ i, ev = .act i (preLocOf x loc cp) := by
+  have hp : parseNoCache len x.plain loc da cp = actionTail x.plain (headPlain len x loc da cp) da := by
+    simp [parseNoCache, DElem.plain, headPlain, implGuard]
+  rw [hp]
+  have hP := head_plain_spec len x loc da cp
+  rcases hh : headPlain len x loc da cp with ⟨ts, res, evs⟩
+  rw [hh] at hP
+  simp only at hP
+  obtain ⟨hts, _, hevs⟩ := hP
+  subst hts hevs
+  intro ev hin
+  cases res with
+  | ok e t =>
+    simp only [actionTail, DElem.plain] at hin
+    by_cases hfire : (!x.acts.isEmpty && (da || x.cdt)) = true
+    · simp only [hfire, if_true] at hin
+      have hf := (fireD_acts (preLocOf x loc cp) e t x.acts).2
+      rcases hq : (fireD (preLocOf x loc cp) e t x.acts).1 with ⟨e', t'⟩ | _ | _ | _ <;>
+        simp [hq] at hin <;> exact hf ev hin
+    · simp [hfire] at hin
+  | fail => simp [actionTail] at hin
+  | fatal => simp [actionTail] at hin
+  | err => simp [actionTail] at hin
+
+/-- **action_loc_is_match_start**: with or without `set_debug` / `set_debug_actions` / `set_fail_action`, every parse
+    action / condition is called with `loc = pre_loc`: the location after `preParse` skipped ignorables and
+    whitespace (the incoming `loc` when the caller passed `callPreParse=False`). -/
+theorem action_loc_is_match_start (len : Nat) (x : DElem) (loc : Nat) (da cp : Bool) (i l : Nat)
+    (h : DEv.act i l ∈ (parseNoCache len x loc da cp).2) : l = preLocOf x loc cp := by
+  have hmem : DEv.act i l ∈ (parseNoCache len x loc da cp).2.filter DEv.isAct :=
+    List.mem_filter.mpr ⟨h, rfl⟩
+  rw [(debug_branch_agrees len x loc da cp).2] at hmem
+  obtain ⟨j, hj⟩ := plain_trace len x loc da cp _ hmem
+  cases hj; rfl
+
+/-- **debug_settings_keep_the_firing_rule**: an action of an element with debug settings fires only where
+    `do_actions` is on or the element has `call_during_try` -/
+theorem debug_settings_keep_the_firing_rule (len : Nat) (x : DElem) (loc : Nat) (cp : Bool)
+    (hc : x.cdt = false) : (parseNoCache len x loc false cp).2.filter DEv.isAct = [] := by
+  rw [(debug_branch_agrees len x loc false cp).2]
+  have hp : parseNoCache len x.plain loc false cp = actionTail x.plain (headPlain len x loc false cp) false := by
+    simp [parseNoCache, DElem.plain, headPlain, implGuard]
+  rw [hp]
+  have hP := head_plain_spec len x loc false cp
+  rcases hh : headPlain len x loc false cp with ⟨ts, res, evs⟩
+  rw [hh] at hP
+  simp only at hP
+  cases res <;> simp [actionTail, DElem.plain, hc, hP.2.2]
+
 /-! ## non-vacuity -/
 
 /-- `Or([a1:'a', a2:'a'+'b'])` on `" a b"`: both alternatives match on trial, only the longer one is parsed
@@ -267,5 +410,16 @@ example : parse "aab".toList 10 (.skipTo (E.ofHist exClear (.lit 'b')) none fals
 example : (parse "b".toList 10 (E.ofHist exClear (.lit 'b')) 0 false true).2 = [] :=
   replaced_action_silent_when_trying "b".toList 10 [.addAct [⟨1, .keep⟩] (some true)] [.addAct [⟨2, .keep⟩] none]
     .clear (.lit 'b') 0 true rfl rfl (by decide) rfl
+
+/-- `Literal('a')` with action 1, `set_debug_actions(...)` and `set_fail_action(...)` on `"  a"`, entered at 0:
+    the action (and every callback) gets 2, the start of the match, not the incoming 0 -/
+def exDbg : DElem :=
+  { pre := skipWs "  a".toList, callPre := true, mayIndexError := false,
+    impl := fun p _ => if "  a".toList[p]? == some 'a' then .ok (p + 1) 0 else .fail,
+    acts := [⟨1, .keep⟩], cdt := false, debug := true, dTry := true, dMatch := true, dFail := true, failAction := true }
+example : parseNoCache 3 exDbg 0 true true = (.ok 3 0, [.dbgTry 2, .act 1 2, .dbgMatch 2 3]) := by decide
+example : parseNoCache 3 exDbg.plain 0 true true = (.ok 3 0, [.act 1 2]) := by decide
+example : parseNoCache 3 exDbg 0 false true = (.ok 3 0, [.dbgTry 2, .dbgMatch 2 3]) := by decide
+example : parseNoCache 3 exDbg 1 true false = (.fail, [.dbgTry 1, .dbgFail 1, .failAct 1]) := by decide
 
 end PP.ActionGate
